@@ -301,6 +301,22 @@ def check_stack_mode(p, stack, builder, groups, seq, return_ctx, n, forms, histo
             p.evaluations += 1
             if got != exp:
                 p.violation(sig("iter_differs", stack, seq, return_ctx, "iter"), case, f"{got} vs {exp}")
+            # several passes over the same object at once (zip(ds, ds), nested loops, a pass resumed after another one ran)
+            p.evaluations += 1
+            zipped = [(norm(a), norm(b)) for a, b in zip(mw, mw)]
+            if zipped != [(e, e) for e in exp]:
+                p.violation(sig("overlapping_iterations_interfere", stack, seq, return_ctx, "iter"), dict(case, how="zip"),
+                            f"zip(ds, ds) gives {len(zipped)} pairs {zipped[:3]}..., expected {n} pairs of equal samples")
+            elif n >= 2:
+                nested = sum(1 for _ in mw for _ in mw)
+                it = iter(mw)
+                head = [norm(next(it))]
+                list(mw)
+                rest = [norm(r) for r in it]
+                if nested != n * n or head + rest != exp:
+                    p.violation(sig("overlapping_iterations_interfere", stack, seq, return_ctx, "iter"), dict(case, how="nested/resumed"),
+                                f"nested loops visit {nested} pairs (expected {n * n}); a pass resumed after another full pass gives "
+                                f"{head + rest}, expected {exp}")
             for sl in slices(n):
                 p.evaluations += 1
                 got = mw[sl]
